@@ -59,9 +59,23 @@ var texts = []string{
 	`"just a string"`,
 	`{"list":[` + strings.Repeat(`{"k":"key","v":7,"w":[1,2]},`, 60) + `{"k":"last","v":0}]}`,
 	`{"a":1,"b":2,"c":3,"d":4,"e":5,"f":6,"g":7,"h":8}`,
+	// numbers that are kept as text (json.Number) unless a conversion option says otherwise
+	`[123456789012345678901234567890,0.1234567890123456789012345,1e400,-98765432109876543210,7]`,
+}
+
+// parseArgs: the optional arguments of a package level parse call.
+func parseArgs(op Op) []any {
+	switch op.X % 6 {
+	case 1:
+		return []any{ojg.NumConvString}
+	case 3:
+		return []any{ojg.NumConvFloat64}
+	}
+	return nil
 }
 
 var senTexts = []string{
+	`[123456789012345678901234567890 0.1234567890123456789012345 1e400 abc]`,
 	`{a:{b:[1 2 3] x:y} list:[{k:k1 v:1}{k:k2 v:2}] c:null}`,
 	`[1 2 3 [4 5 [6 7]] abc "d e"]`,
 	`{text: "` + strings.Repeat("abc def ", 50) + `"}`,
@@ -191,10 +205,11 @@ func (e *env) call(op Op) (res string, buf []byte) {
 	pooled := op.X%2 == 0 // without arguments the package level functions use pooled writers
 	switch op.K {
 	case "oj.parse":
-		v, err := oj.Parse([]byte(text()))
+		// a third of the calls pass a number conversion option: it is that call's business only
+		v, err := oj.Parse([]byte(text()), parseArgs(op)...)
 		return fmt.Sprintf("%s %v", canon.String(v, canon.Typed), err), nil
 	case "oj.parsestring":
-		v, err := oj.ParseString(text())
+		v, err := oj.ParseString(text(), parseArgs(op)...)
 		return fmt.Sprintf("%s %v", canon.String(v, canon.Typed), err), nil
 	case "oj.validate":
 		t := text()
@@ -207,7 +222,7 @@ func (e *env) call(op Op) (res string, buf []byte) {
 		err := oj.Tokenize([]byte(text()), h)
 		return fmt.Sprintf("%s %v", h.sb.String(), err), nil
 	case "sen.parse":
-		v, err := sen.Parse([]byte(senTexts[op.D%len(senTexts)]))
+		v, err := sen.Parse([]byte(senTexts[op.D%len(senTexts)]), parseArgs(op)...)
 		return fmt.Sprintf("%s %v", canon.String(v, canon.Typed), err), nil
 	case "oj.unmarshal":
 		t := e.recs[op.D%len(e.recs)]
